@@ -21,7 +21,7 @@ def gen_tables():
 
 
 def harness():
-    return vlib.build_exe('h_cif', [vlib.ROOT + '/harness/h_cif.cpp'])
+    return vlib.build_exe('h_cif', [vlib.ROOT + '/harness/h_cif.cpp'] + vlib.repo_src('json.cpp', 'to_json.cpp'))
 
 
 def driver():
@@ -194,7 +194,8 @@ def gen_items(rng, counter, depth, wf, nmax=6):
                 vals = vals[:-1] if len(vals) > nt else vals + [b'x']
             items.append(('L', tags, vals))
         elif r < 0.9 and depth == 0:
-            name = rand_from(rng, ORD + b"_#$;'", rng.choice([1, 3, 6]))
+            # frame names are compared case-insensitively by check_for_duplicates: keep them unique
+            name = rand_from(rng, ORD + b"_#$;'", rng.choice([1, 3, 6])) + b'%d' % counter[0]
             items.append(('F', name, gen_items(rng, counter, 1, wf, 3)))
         elif r < 0.95:
             items.append(('C', b'#' + rand_from(rng, ORD + b' _;#', rng.choice([0, 3, 9]))))
@@ -442,3 +443,91 @@ def gen_lex_inputs(rng, n):
             v = rand_from(rng, b"ab'\" \n\r;#_$\t?.", rng.choice([0, 1, 2, 3, 5, 9]))
         out.append('lex\t%d %s' % (rng.randrange(2), hx(v)))
     return out
+
+
+# ---------------------------------------------------------------- mmJSON
+
+def json_str(s):
+    import json
+    return json.dumps(s)
+
+
+def gen_mmjson(rng):
+    """(json text, expected dump) for an mmJSON document with strings, numbers, null, booleans and array values"""
+    def scalar():
+        r = rng.random()
+        if r < 0.35:
+            s = ''.join(rng.choice("abcXYZ019 .,;'_#$?-") for _ in range(rng.choice([1, 2, 4, 9])))
+            if s in ('?', '.'):
+                s = 'q'
+            return json_str(s), s
+        if r < 0.6:
+            n = rng.choice(['0', '1', '-12', '3.5', '-0.25', '1e5', '2.50', '10'])
+            return n, n
+        if r < 0.7:
+            return 'null', '?'
+        if r < 0.78:
+            return rng.choice([('true', 'YES'), ('false', 'NO')])
+        k = rng.choice([1, 2, 2, 3])
+        parts = []
+        for _ in range(k):
+            if rng.random() < 0.5:
+                parts.append(rng.choice(['1', '2.5', '-3', '40']))
+            else:
+                parts.append(rng.choice("abcdXY") + ''.join(rng.choice("abcdXY01") for _ in range(rng.choice([0, 2]))))
+        js = '[' + ', '.join(p if p[0] in '-0123456789' else json_str(p) for p in parts) + ']'
+        return js, ' '.join(parts)
+    blocks, dump = [], []
+    for b in range(rng.choice([1, 1, 2])):
+        name = 'blk%d' % b
+        dump += ['B', hx(name)]
+        cats = []
+        for c in range(rng.choice([1, 2, 3])):
+            cat = 'cat%d' % c
+            rows = rng.choice([1, 1, 2, 3])
+            cols = rng.choice([1, 2, 3])
+            columns, exp = [], []
+            for j in range(cols):
+                vals = [scalar() for _ in range(rows)]
+                columns.append('%s: [%s]' % (json_str('it%d' % j), ', '.join(v[0] for v in vals)))
+                exp.append([v[1] for v in vals])
+            cats.append('%s: {%s}' % (json_str(cat), ', '.join(columns)))
+            tags = ['_%s.it%d' % (cat, j) for j in range(cols)]
+            if rows == 1:
+                for j in range(cols):
+                    dump += ['P', hx(tags[j]), hx(exp[j][0])]
+            else:
+                dump += ['L', str(cols), str(cols * rows)] + [hx(t) for t in tags]
+                for k in range(rows):
+                    for j in range(cols):
+                        dump.append(hx(exp[j][k]))
+        blocks.append('%s: {%s}' % (json_str('data_' + name), ', '.join(cats)))
+    return '{' + ', '.join(blocks) + '}', ' '.join(dump)
+
+
+def gen_mmcif_dom(rng):
+    """mmCIF-shaped DOM (one pair-set or one loop per category) with non-numeric string values and '?'"""
+    def value():
+        r = rng.random()
+        if r < 0.15:
+            return b'?'
+        body = rng.choice(b"abcXYZ") .to_bytes(1, 'big') + rand_from(rng, b"abcXYZ019 .,;_#$?-'", rng.choice([0, 1, 3, 8]))
+        if r < 0.5 and b' ' not in body and b"'" not in body and b'#' not in body[:1] and b'$' not in body[:1]:
+            return body if all(c in ORD for c in body) else b"'" + body.replace(b"'", b"") + b"'"
+        if b'"' in body or b"'" in body:
+            body = body.replace(b"'", b"").replace(b'"', b'')
+        return b"'" + body + b"'"
+    doc = []
+    for b in range(rng.choice([1, 1, 2])):
+        items = []
+        for c in range(rng.choice([1, 2, 3])):
+            cols = rng.choice([1, 2, 3])
+            tags = [b'_cat%d.it%d' % (c, j) for j in range(cols)]
+            rows = rng.choice([1, 2, 3])
+            if rows == 1 and rng.random() < 0.7:
+                for t in tags:
+                    items.append(('P', t, value()))
+            else:
+                items.append(('L', tags, [value() for _ in range(cols * max(2, rows))]))
+        doc.append((b'blk%d' % b, items))
+    return doc
